@@ -10,6 +10,12 @@ import Mathlib.Algebra.Order.Field.Basic
 
 namespace Verde
 
+theorem except_bind_ok {ε α β : Type} (x : Except ε α) (f : α → Except ε β) (v : β)
+    (h : (x >>= f) = .ok v) : ∃ a, x = .ok a ∧ f a = .ok v := by
+  cases x with
+  | error e => simp [bind, Except.bind] at h
+  | ok a => exact ⟨a, rfl, by simpa [bind, Except.bind] using h⟩
+
 theorem floor_le' (q : Rat) : ((q.floor : Int) : Rat) ≤ q := Rat.floor_le q
 theorem lt_floor_add_one' (q : Rat) : q < ((q.floor : Int) : Rat) + 1 := by
   have := Rat.lt_floor_add_one q; push_cast at this; exact this
